@@ -82,6 +82,6 @@ Run/RunC15.vos Run/RunC15.vok Run/RunC15.required_vos: Run/RunC15.v Base.vos Pri
 Proofs/Endian.vo Proofs/Endian.glob Proofs/Endian.v.beautified Proofs/Endian.required_vo: Proofs/Endian.v Base.vo Prim.vo Model/Core.vo Model/Shift.vo Model/Bits.vo Model/Endian.vo
 Proofs/Endian.vio: Proofs/Endian.v Base.vio Prim.vio Model/Core.vio Model/Shift.vio Model/Bits.vio Model/Endian.vio
 Proofs/Endian.vos Proofs/Endian.vok Proofs/Endian.required_vos: Proofs/Endian.v Base.vos Prim.vos Model/Core.vos Model/Shift.vos Model/Bits.vos Model/Endian.vos
-Properties/C15.vo Properties/C15.glob Properties/C15.v.beautified Properties/C15.required_vo: Properties/C15.v Base.vo Prim.vo
-Properties/C15.vio: Properties/C15.v Base.vio Prim.vio
-Properties/C15.vos Properties/C15.vok Properties/C15.required_vos: Properties/C15.v Base.vos Prim.vos
+Properties/C15.vo Properties/C15.glob Properties/C15.v.beautified Properties/C15.required_vo: Properties/C15.v Base.vo Prim.vo Model/Core.vo Model/Shift.vo Model/Bits.vo Model/Endian.vo Proofs/Endian.vo
+Properties/C15.vio: Properties/C15.v Base.vio Prim.vio Model/Core.vio Model/Shift.vio Model/Bits.vio Model/Endian.vio Proofs/Endian.vio
+Properties/C15.vos Properties/C15.vok Properties/C15.required_vos: Properties/C15.v Base.vos Prim.vos Model/Core.vos Model/Shift.vos Model/Bits.vos Model/Endian.vos Proofs/Endian.vos
